@@ -33,6 +33,8 @@ Prec(t) == CASE t.k = "cond" -> 1 [] t.k = "bin" -> BinPrec(t.op) [] t.k = "un" 
 Par(s) == <<P("(")>> \o s \o <<P(")")>>
 RECURSIVE Render(_,_), RenderArgs(_), RenderPairs(_,_), Full(_), FullArgs(_), FullPairs(_,_)
 \* comma separated expressions
+NumLits == {"1", "42", "1u", "1.5", "0x1F"}
+IsNumLit(x) == x.k = "lit" /\ x.n \in NumLits
 RenderArgs(as) == IF as = <<>> THEN <<>> ELSE Render(as[1], 1) \o (IF Len(as) = 1 THEN <<>> ELSE <<P(",")>> \o RenderArgs(Tail(as)))
 \* pairs: kind "map" (expr : expr) or "obj" (IDENT : expr)
 RenderPairs(ps, kind) == IF ps = <<>> THEN <<>> ELSE
@@ -44,9 +46,10 @@ Render(t, p) == LET body ==
       [] t.k = "un" -> <<P(t.op)>> \o Render(t.x, 7)
       [] t.k = "bin" -> Render(t.l, BinPrec(t.op)) \o <<P(t.op)>> \o Render(t.r, BinPrec(t.op) + 1)
       [] t.k = "cond" -> Render(t.c, 2) \o <<P("?")>> \o Render(t.a, 2) \o <<P(":")>> \o Render(t.b, 1)
-      [] t.k = "sel" -> Render(t.x, 8) \o <<P("."), Id(t.f)>>
+      \* (a numeric literal cannot stand directly before ".": "1.f" would be read as the number "1." -- it is parenthesised as a receiver)
+      [] t.k = "sel" -> (IF IsNumLit(t.x) THEN <<P("("), Lit(t.x.n), P(")")>> ELSE Render(t.x, 8)) \o <<P("."), Id(t.f)>>
       [] t.k = "idx" -> Render(t.x, 8) \o <<P("[")>> \o Render(t.i, 1) \o <<P("]")>>
-      [] t.k = "mcall" -> Render(t.x, 8) \o <<P("."), Id(t.f), P("(")>> \o RenderArgs(t.args) \o <<P(")")>>
+      [] t.k = "mcall" -> (IF IsNumLit(t.x) THEN <<P("("), Lit(t.x.n), P(")")>> ELSE Render(t.x, 8)) \o <<P("."), Id(t.f), P("(")>> \o RenderArgs(t.args) \o <<P(")")>>
       [] t.k = "call" -> <<Id(t.f), P("(")>> \o RenderArgs(t.args) \o <<P(")")>>
       [] t.k = "dotid" -> <<P("."), Id(t.n)>>
       [] t.k = "dotcall" -> <<P("."), Id(t.f), P("(")>> \o RenderArgs(t.args) \o <<P(")")>>
